@@ -7,11 +7,13 @@ import (
 	"strings"
 
 	"github.com/emitter-io/emitter/verif/core"
+	vcrdt "github.com/emitter-io/emitter/verif/drivers/crdt"
 	"github.com/emitter-io/emitter/verif/drivers/trie"
 )
 
 var checks = map[string]func(*core.Ctx){
 	"C01": trie.Run,
+	"C04": vcrdt.Run,
 }
 
 func main() {
